@@ -66,35 +66,36 @@ bool exec_apply(ExecCtx &c) {
               }
               if (same) factor_probes(v, x);
               if (has_int) c08_note(E_APPLY_FACTOR, x.getSupport().getGrid(), v.getSupport().getGrid());
-              uint64_t reshash = 0, h2 = 0;
-              bool have = false, have_twin = false;
+              bool twin_differs = false;
               if (distinct) {
-                // twin on one shared grid instance, computed before the call
+                // C08 on pristine copies: factor on its own grid object vs. factor
+                // rebuilt on the operand's grid object
                 sim::Exempt e;
                 try {
-                  V v2(Support(x.getSupport().getGrid(), v.getSupport().getStartIndex(),
-                               v.getSupport().getEndIndex()),
+                  using X = std::decay_t<decltype(x)>;
+                  const Grid &gx = x.getSupport().getGrid();
+                  X xf(Support(gx, x.getSupport().getStartIndex(), x.getSupport().getEndIndex()), x.getCoefficients());
+                  V vo(Support(v.getSupport().getGrid(), v.getSupport().getStartIndex(), v.getSupport().getEndIndex()),
                        v.getCoefficients());
-                  with_factor_recipe(r, v2, [&](auto &&o) { h2 = hash_spline_wc(o * x); });
-                  have_twin = true;
+                  V vs2(Support(gx, v.getSupport().getStartIndex(), v.getSupport().getEndIndex()), v.getCoefficients());
+                  uint64_t h1 = 0, h2 = 0;
+                  with_factor_recipe(r, vo, [&](auto &&o) { h1 = hash_spline_wc(o * xf); });
+                  with_factor_recipe(r, vs2, [&](auto &&o) { h2 = hash_spline_wc(o * xf); });
+                  probe(PR_TWIN_COMPARED);
+                  twin_differs = h1 != h2;
                 } catch (const std::exception &) {
                 }
               }
               libcall(out, [&] {
                 with_factor_recipe(r, v, [&](auto &&o) {
                   auto res = o * x;
-                  reshash = hash_spline_wc(res);
-                  have = true;
                   store_result(c, dst, std::move(res));
                 });
               });
               if (has_int) c08_check(c, !same, true, distinct, "SplineOperator::transform");
-              if (have && have_twin) {
-                probe(PR_TWIN_COMPARED);
-                if (h2 != reshash)
-                  add_violation(c, "C08", "equal-grid-result-differs",
-                                "operator with spline factor on a distinct equal grid", "SplineOperator::transform");
-              }
+              if (twin_differs)
+                add_violation(c, "C08", "equal-grid-result-differs",
+                              "operator with spline factor on a distinct equal grid", "SplineOperator::transform");
             }
           },
           *xs, *vs);
